@@ -63,7 +63,7 @@ def _shape(v, depth=0):
 
 def state_probe(args):
     """{'name', 'steps', 'np_seed'}: the estimator after the whole history vs a fresh estimator fitted on the last step only.
-    Returns the attributes whose structure differs (presence in __dict__, None-ness, type, shape, boolean value)."""
+    Returns the attributes whose structure differs: [attr, 'presence' | 'none' | 'type' | 'shape', detail]."""
     name, steps, np_seed = args['name'], args['steps'], args.get('np_seed')
     out = {'diff': [], 'fresh_err': None, 'hist_err': None}
     try:
@@ -86,7 +86,13 @@ def state_probe(args):
             continue
         a, b = _shape(df[k]), _shape(dh[k])
         if a != b:
-            out['diff'].append([k, 'structure', 'fresh %r / refit %r' % (a, b)])
+            if a is None or b is None:
+                what = 'none'          # set on one side only
+            elif a[0] != b[0]:
+                what = 'type'
+            else:
+                what = 'shape'         # same kind of value, another shape / length / boolean
+            out['diff'].append([k, what, 'fresh %r / refit %r' % (a, b)])
     return out
 
 
